@@ -12,14 +12,17 @@ DRIVERS["D5s"] = dict(setup="settled", channels=[C.chan("m", negotiated=0)],
 DRIVERS["D7"] = dict(setup="settled", channels=[C.chan("m", negotiated=0)],
                      script=[[("send", "A", "m", C.pay("m", 0, 6000))], [("send", "A", "m", C.pay("m", 1, 100)),
                                                                        ("send", "B", "m", C.pay("mb", 0, 100))]])
+# stream sequence numbers about to wrap: a reordered message around the wrap must not stay in the reassembly queue
+DRIVERS["D12"] = dict(setup="settled", sseq={"w": 65534}, channels=[C.chan("w", negotiated=0)],
+                      script=[[("send", "A", "w", C.pay("w", i, 100 if i != 1 else 1300)) for i in range(4)]])
 
 
 def scenario(name):
     return C.make_factory(DRIVERS[name]), C.SctpOracle(safety=True, liveness=True, do_probe=True, probe_n=4), C.default_signature
 
 
-QUICK = [("D5s", 2), ("D5", 2), ("D6", 2), ("D4", 2), ("D2", 2), ("D1", 1), ("D3", 2), ("D7", 2)]
-THOROUGH = [("D5s", 3), ("D5", 3), ("D6", 3), ("D4", 3), ("D2", 3), ("D1", 2), ("D3", 3), ("D7", 3)]
+QUICK = [("D5s", 2), ("D5", 2), ("D6", 2), ("D4", 2), ("D2", 2), ("D1", 1), ("D3", 2), ("D7", 2), ("D12", 2)]
+THOROUGH = [("D5s", 3), ("D5", 3), ("D6", 3), ("D4", 3), ("D2", 3), ("D1", 2), ("D3", 3), ("D7", 3), ("D12", 3)]
 
 
 def run(tier, seed):
